@@ -85,6 +85,11 @@ def oracle(scn, trace):
             continue
         exc = end["exc"]
         deferred = inf.decision == "D"
+        if a.kind == "exc" and not deferred and getattr(a, "timed_out", False):
+            # the attempt was given up by the per-attempt timeout: its "own exception" is the library's TimeoutError
+            if exc["type"] != "TimeoutError":
+                out.append(V("R2", f"raised {exc['type']} after the final attempt timed out", {"call": cid, "got": exc, "entry": ent}))
+            continue
         if a.kind == "exc" and not deferred:
             if exc.get("obj") != a.obj:
                 out.append(V("R2", f"raised {exc.get('obj') or exc['type']} instead of the last attempt's exception",
